@@ -152,6 +152,7 @@ def check_circuit(p, name, c, rnd, exhaustive_starts, build_src=None):
     else:
         for _ in range(4):
             start_sets.append([rnd.choice(labs) for _ in range(rnd.randint(1, 3))] if labs else [])
+    start_sets += [[], ()]  # an empty start set reaches nothing (it is not "no start set given")
     for starts in start_sets:
         for mode in ("dfs", "bfs"):
             for inverse in (False, True):
@@ -166,6 +167,115 @@ def check_circuit(p, name, c, rnd, exhaustive_starts, build_src=None):
                                     f"{mode}(start={starts}, inverse={inverse}, topsort_unvisited={tsu}) on {circ.describe(c)}: {probs[:2]}",
                                     src_for(c, build_src) + f"try:\n    bad=traversal_problems(c, {mode!r}, {starts!r}, {inverse!r}, {tsu!r})\nexcept Exception as e:\n    bad=[repr(e)]\nprint(bad); sys.exit(1 if bad else 0)\n")
                         return
+
+
+def cycle_verdict(p, c, sample=None, build_src=None):
+    from cirbo.core.circuit.validation import check_circuit_has_no_cycles
+
+    expect = has_cycle_from_outputs(c)
+    try:
+        check_circuit_has_no_cycles(c)
+        got = False
+    except CircuitValidationError:
+        got = True
+    except BaseException as e:  # noqa: BLE001  (RecursionError on a deep circuit is an answer, and a wrong one)
+        if not isinstance(e, Exception):
+            raise
+        got = f"raised {type(e).__name__}"
+    p.case(("cycle", circ.snapshot(c)[:3] if len(c.gates) < 50 else (len(c.gates), sample)), sample=sample)
+    p.count("cyclic_netlists" if expect else "acyclic_from_outputs")
+    if got != expect:
+        p.violation("traverse:cycle-check", f"check_circuit_has_no_cycles {'raised' if got is True else 'passed' if got is False else got} but a cycle is {'reachable' if expect else 'not reachable'} from the outputs: "
+                    f"{circ.describe(c) if len(c.gates) < 50 else sample}",
+                    src_for(c, build_src) + "from cirbo.core.circuit.validation import check_circuit_has_no_cycles\nfrom cirbo.core.circuit.exceptions import CircuitValidationError\n"
+                    "try:\n    check_circuit_has_no_cycles(c); got=False\nexcept CircuitValidationError:\n    got=True\nexcept Exception as e:\n    got=repr(e)[:80]\n"
+                    "exp=has_cycle_from_outputs(c)\nprint(got, exp); sys.exit(1 if got!=exp else 0)\n")
+
+
+DEEP_SRC = """
+from cirbo.core.circuit import Circuit, gate as G
+from checks.c20 import deep_circuit
+c = deep_circuit(%r, %d)
+"""
+
+
+def deep_circuit(shape, depth):
+    """Deep circuits (a long inverter chain, an AND/XOR ladder, a ring): depth well beyond Python's recursion limit."""
+    c = Circuit()
+    c._emplace_gate("a", G.INPUT)
+    c._emplace_gate("b", G.INPUT)
+    c._inputs = ["a", "b"]
+    prev = "a"
+    for i in range(depth):
+        lab = f"d{i}"
+        if shape == "chain":
+            c._emplace_gate(lab, G.NOT, (prev,))
+        elif shape == "ladder":
+            c._emplace_gate(lab, G.AND if i % 2 else G.XOR, (prev, "b"))
+        else:  # ring: the first gate reads the last one
+            c._emplace_gate(lab, G.OR, (prev if i else f"d{depth - 1}", "b"))
+        prev = lab
+    c._outputs = [prev]
+    return c
+
+
+def check_deep(p, rnd, depth):
+    for shape in ("chain", "ladder"):
+        c = deep_circuit(shape, depth)
+        src = DEEP_SRC % (shape, depth)
+        cycle_verdict(p, c, sample=f"{shape} of depth {depth}", build_src=src)
+        tp = circ.topsort_problems(c)
+        p.case(("deep-topsort", shape, depth))
+        if tp:
+            p.violation("traverse:top_sort:deep", f"{tp[:2]} for a {shape} of depth {depth}", src_for(c, src) + "bad=circ.topsort_problems(c)\nprint(bad[:2]); sys.exit(1 if bad else 0)\n")
+        for mode in ("dfs", "bfs"):
+            for starts, inverse in ((None, False), (["a"], True), ([f"d{depth // 2}"], False)):
+                p.case(("deep-trav", shape, depth, mode, repr(starts), inverse))
+                try:
+                    probs = traversal_problems(c, mode, starts, inverse, False)
+                except Exception as e:  # noqa: BLE001
+                    probs = [f"raised {type(e).__name__}: {e}"]
+                if probs:
+                    p.violation(f"traverse:{mode}:deep", f"{mode}(start={starts}, inverse={inverse}) on a {shape} of depth {depth}: {probs[:2]}",
+                                src_for(c, src) + f"try:\n    bad=traversal_problems(c, {mode!r}, {starts!r}, {inverse!r}, False)\nexcept Exception as e:\n    bad=[repr(e)]\nprint(bad[:2]); sys.exit(1 if bad else 0)\n")
+    c = deep_circuit("ring", depth)
+    cycle_verdict(p, c, sample=f"ring of {depth} gates", build_src=DEEP_SRC % ("ring", depth))
+
+
+def replace_history(rnd, tag):
+    """A reader outside the replaced region reads a replaced gate on several pins; then replace_subcircuit."""
+    from checks import mutators
+
+    c0 = circgen.random_circuit(rnd, rnd.randint(2, 3), rnd.randint(2, 5), max_arity=2, n_outputs=rnd.randint(1, 2), outputs_may_be_inputs=False)
+    c = mutators.rebuild(c0)
+    pre = []
+    inner = [l for l in c.gates if c.gates[l].gate_type != G.INPUT and c.gates[l].operands]
+    if not inner:
+        return None, None
+    for k in range(rnd.randint(1, 2)):
+        s = rnd.choice(inner)
+        ops = rnd.choice([[s, s], [s, rnd.choice(list(c.gates)), s], [s, s, s]])
+        call = dict(kind="add_gate", label=f"rd{k}", type=rnd.choice(["OR", "XOR", "AND"]), operands=ops)
+        pre.append(call)
+        c = mutators.apply_call(c, call)
+        if rnd.random() < 0.5:
+            pre.append(dict(kind="mark_as_output", label=f"rd{k}"))
+            c = mutators.apply_call(c, pre[-1])
+    calls = list(pre)
+    for step in range(6):
+        call = mutators.random_call(rnd, c, step=step, kinds=["replace_subcircuit"])
+        if call is None or any(l.startswith("rd") for l in call["outputs_mapping"]):
+            continue
+        try:
+            c = mutators.apply_call(c, call)
+            calls.append(call)
+            break
+        except Exception:  # noqa: BLE001
+            return None, None
+    else:
+        return None, None
+    src = circ.circ_src(c0) + "\nfrom checks import mutators\n" + f"for call in {calls!r}:\n    c = mutators.apply_call(c, call)\n"
+    return c, src
 
 
 def check_cycles(p, rnd, count):
@@ -225,6 +335,14 @@ def unit(p, item, tier, seed):
             c, src = history_circuit(rnd, f"{arg}:{i}")
             if c is not None:
                 check_circuit(p, f"history[{arg}:{i}]", c, rnd, exhaustive_starts=False, build_src=src)
+    elif kind == "replace":
+        for i in range(60 if tier == "quick" else 200):
+            c, src = replace_history(rnd, f"{arg}:{i}")
+            if c is not None:
+                p.count("replace_histories")
+                check_circuit(p, f"replace[{arg}:{i}]", c, rnd, exhaustive_starts=False, build_src=src)
+    elif kind == "deep":
+        check_deep(p, rnd, arg)
     elif kind == "feature":
         for n, c in circgen.feature_circuits():
             check_circuit(p, n, c, rnd, exhaustive_starts=True)
@@ -244,7 +362,9 @@ def run(rep, tier, seed, only=None):
     thorough = tier == "thorough"
     rep.functions = ["Circuit.top_sort", "Circuit.dfs / bfs / _traverse_circuit (all hooks, topsort_unvisited)", "validation.check_circuit_has_no_cycles"]
     rep.bounds = {"systematic": "all netlists with <=2 inputs, <=3 gates, arities 1-2 (quick: <=2 gates exhaustive + sample of 3) x start lists of length <=2 (all ordered pairs) x 2 directions x 2 modes x 2 unvisited orders",
-                  "seeded": "<=4 inputs, <=10 gates", "cyclic": "random netlists <=5 gates built through _emplace_gate"}
+                  "seeded": "<=4 inputs, <=10 gates", "cyclic": "random netlists <=5 gates built through _emplace_gate",
+                  "deep": "inverter chain, AND/XOR ladder and ring of depth 1500 (quick) / 1100, 1500, 5000 (thorough)",
+                  "histories": "random public mutator histories; replace_subcircuit with an outside reader on several pins"}
     rep.outside = ["no value dimension: the program dimension is enumerated, not solved", "BFS level order (not stated by the property)"]
     rep.rule = "case = (netlist, mode, start list, direction, unvisited order) or (netlist for the cycle check)"
     rep.explanation = "bounded exploration against independent oracles"
@@ -261,4 +381,6 @@ def run(rep, tier, seed, only=None):
             work.append(("systematic", (n_in, ch)))
     work += [("seeded", seed * 7 + s) for s in range(32 if thorough else 12)]
     work += [("history", seed * 5 + s) for s in range(24 if thorough else 8)]
+    work += [("replace", seed * 3 + s) for s in range(12 if thorough else 4)]
+    work += [("deep", d) for d in ((1100, 1500, 5000) if thorough else (1500,))]
     rep.pmap(unit, work)
